@@ -10,7 +10,7 @@ use std::io::ErrorKind;
 use std::sync::atomic::Ordering;
 use vm_memory::volatile_memory::Error as VErr;
 use std::cell::RefCell;
-use std::collections::{BTreeMap, BTreeSet};
+use std::collections::BTreeSet;
 use std::sync::Arc;
 use vm_memory::bitmap::{ArcSlice, AtomicBitmap, Bitmap, BitmapSlice, RefSlice};
 use vm_memory::{ByteValued, Bytes, MmapRegion, VolatileMemory, VolatileSlice};
@@ -433,6 +433,14 @@ fn run_race<BS: BitmapSlice>(mk: impl Fn(u32) -> Cont<BS>) -> RunInfo {
     let second_writer_prog: Vec<(usize, usize)> = if cx().a(2) == 0 { (0..1 + cx().a(3)).map(|_| (cx().a(size as u32) as usize, 1 + cx().a(16) as usize)).collect() } else { Vec::new() };
     let base2 = conts[0].slice();
     let (rid2, cbase2) = (conts[0].rid, cont_base_in_range(&conts[0]));
+    // now and then a second clearing thread resets sub-ranges of the bitmap and copies the pages of
+    // the range afterwards (clear, then copy: the order that loses nothing)
+    let reset_prog: Vec<(usize, usize)> = if cx().a(3) == 0 {
+        let bs = in_mode(Mode::Oracle, || bitmap.byte_size());
+        (0..1 + cx().a(2)).map(|_| (cx().a(bs as u32 + 1) as usize, 1 + cx().a((4 * ps).min(600) as u32) as usize)).collect()
+    } else {
+        Vec::new()
+    };
     {
         let c = cx();
         c.cfg.yield_atomic = true;
@@ -452,7 +460,8 @@ fn run_race<BS: BitmapSlice>(mk: impl Fn(u32) -> Cont<BS>) -> RunInfo {
     // (event index at start, at end, pages the operation may have written, operation name)
     let wops = RefCell::new(Vec::<(usize, usize, BTreeSet<usize>, &'static str)>::new());
     // (event index at start, at end, pages reported)
-    let hrecs = RefCell::new(Vec::<(usize, usize, BTreeSet<usize>)>::new());
+    // (event index at start, at end, pages, true = a harvest that reported them / false = a reset that cleared them)
+    let hrecs = RefCell::new(Vec::<(usize, usize, BTreeSet<usize>, bool)>::new());
     let npages = in_mode(Mode::Oracle, || bitmap.len());
     let (mut ok_ops, mut rejected) = (0u32, 0u32);
     let copy_pages = |words: &[u64], dest: &mut Vec<u8>| -> usize {
@@ -538,7 +547,7 @@ fn run_race<BS: BitmapSlice>(mk: impl Fn(u32) -> Cont<BS>) -> RunInfo {
                 let n = in_mode(Mode::Oracle, || copy_pages(&words, &mut dest2.borrow_mut()));
                 cx().op_end(100 + h as u64, 0);
                 let rep: BTreeSet<usize> = (0..words.len() * 64).filter(|p| words[p / 64] >> (p % 64) & 1 == 1).collect();
-                hrecs2.borrow_mut().push((h0, cx().events.len(), rep));
+                hrecs2.borrow_mut().push((h0, cx().events.len(), rep, true));
                 harv2.borrow_mut().push(format!("harvest {}: {} byte(s) copied", h, n));
                 log2.borrow_mut().push(format!("harvester: get_and_reset() reported {} dirty byte(s) of the container", n));
             }
@@ -561,12 +570,42 @@ fn run_race<BS: BitmapSlice>(mk: impl Fn(u32) -> Cont<BS>) -> RunInfo {
                 wops3.borrow_mut().push((t0, cx().events.len(), pages, "write (second writer)"));
             }
         });
-        if second_writer_prog.is_empty() {
-            run_concurrent(vec![wbody, hbody]);
-        } else {
+        let (log4, dest4, hrecs4, bm4, rprog4) = (&log, &dest, &hrecs, &bitmap, &reset_prog);
+        let rbody: Box<dyn FnOnce() + '_> = Box::new(move || {
+            for (k, &(a, l)) in rprog4.iter().enumerate() {
+                if !matches!(catch(crate::sim::yield_point), OpOutcome::Ok(())) {
+                    break;
+                }
+                let h0 = cx().events.len();
+                cx().op_begin(300 + k as u64);
+                let _ = catch(|| bm4.reset_addr_range(a, l));
+                // the pages of the range are copied after they were cleared, dirty or not
+                let cleared: BTreeSet<usize> = (a / ps..=(a + l - 1) / ps).filter(|&p| p < npages).collect();
+                in_mode(Mode::Oracle, || {
+                    let now = raw_read(ptr, size);
+                    let mut d = dest4.borrow_mut();
+                    for i in 0..size {
+                        if cleared.contains(&((base_off + i) / ps)) {
+                            d[i] = now[i];
+                        }
+                    }
+                });
+                cx().op_end(300 + k as u64, 0);
+                // for the precision oracle a reset is a clear like a harvest (without a report)
+                hrecs4.borrow_mut().push((h0, cx().events.len(), cleared, false));
+                log4.borrow_mut().push(format!("resetter: reset_addr_range({}, {}) and copy of its pages", a, l));
+            }
+        });
+        let mut bodies = vec![wbody, hbody];
+        if !second_writer_prog.is_empty() {
             cx().count("probe.two_writers_and_a_harvester");
-            run_concurrent(vec![wbody, hbody, w2body]);
+            bodies.push(w2body);
         }
+        if !reset_prog.is_empty() {
+            cx().count("probe.harvester_and_resetter");
+            bodies.push(rbody);
+        }
+        run_concurrent(bodies);
     }
     let c = cx();
     c.count_n("sim.steps", c.sched.steps);
@@ -585,22 +624,22 @@ fn run_race<BS: BitmapSlice>(mk: impl Fn(u32) -> Cont<BS>) -> RunInfo {
         // precision under the race (C16): a page is reported only if some operation that may have
         // written it was still running, or ran, after the previous report of that page began
         let fin: BTreeSet<usize> = (0..words.len() * 64).filter(|p| words[p / 64] >> (p % 64) & 1 == 1).collect();
-        let mut reports = hrecs.borrow().clone();
-        reports.push((usize::MAX - 1, usize::MAX, fin));
+        let mut clears = hrecs.borrow().clone();
+        clears.push((usize::MAX - 1, usize::MAX - 1, fin, true));
         let wops = wops.borrow();
-        let mut last_report_start: BTreeMap<usize, usize> = BTreeMap::new();
-        'outer: for (h0, _h1, rep) in reports.iter() {
+        'outer: for (ci, (h0, _h1, rep, reports)) in clears.iter().enumerate() {
+            if !*reports {
+                continue;
+            }
             for &p in rep {
-                let since = last_report_start.get(&p).copied().unwrap_or(0);
+                // the latest clear of p (an earlier report or a reset) that was over before this report began
+                let since = clears.iter().enumerate().filter(|(k, c)| *k != ci && c.1 <= *h0 && c.2.contains(&p)).map(|(_, c)| c.0).max().unwrap_or(0);
                 let justified = wops.iter().any(|(_t0, t1, pages, _)| pages.contains(&p) && *t1 > since);
                 if !justified {
                     let line = log.borrow().join(" | ");
-                    cx().violate("C16", "C16/spurious-after-harvest", format!("{} racing with a harvest through {}", knames.borrow().join(" + "), flavour), format!("{}: page {} (page size {}, slice base offset {}) was reported dirty although no operation wrote it since it was last reported", line, p, ps, base_off));
+                    cx().violate("C16", "C16/spurious-after-harvest", format!("{} racing with a harvest through {}", knames.borrow().join(" + "), flavour), format!("{}: page {} (page size {}, slice base offset {}) was reported dirty although no operation wrote it since it was last reported or reset", line, p, ps, base_off));
                     break 'outer;
                 }
-            }
-            for &p in rep {
-                last_report_start.insert(p, *h0);
             }
         }
     }
